@@ -427,6 +427,11 @@ impl Gen {
     }
 
     fn wfault(&mut self, size_hint: usize) -> WFault {
+        if self.prop == "C19" && self.rng.chance(1, 8) {
+            // the two write faults whose specified outcome does not depend on the size of the image
+            // (and so not on N or the capacity): save() must answer Err in every replica
+            return if self.rng.chance(1, 2) { WFault::OpenFail } else { WFault::FailAfterTrunc };
+        }
         if !self.faults_enabled || !self.rng.chance(self.fault_pct, 100) {
             return WFault::None;
         }
@@ -756,7 +761,9 @@ impl Gen {
                     return None;
                 }
                 let path = self.rng.below(PATHS);
-                let fault = if self.faults_enabled && self.rng.chance(self.fault_pct, 100) {
+                let fault = if self.prop == "C19" && self.rng.chance(1, 10) {
+                    RFault::Enoent
+                } else if self.faults_enabled && self.rng.chance(self.fault_pct, 100) {
                     if self.rng.chance(1, 2) {
                         RFault::Eio(self.rng.below(view.paths[path].size + 2))
                     } else {
@@ -783,7 +790,8 @@ impl Gen {
             }
             Kind::Slice => {
                 let v = self.pick_present(m)?;
-                let pred = match self.rng.below(9) {
+                let pred = match self.rng.below(10) {
+                    9 => Pred::Nested(self.rng.chance(1, 2)),
                     8 => Pred::PanicAt(self.rng.range(1, 4) as u8),
                     0..=2 => Pred::All,
                     3 => Pred::None,
